@@ -970,6 +970,23 @@ example :
 section Round4Labeled
 -- (theorems of this package go between this line and the `end`)
 
+/-- **C11+C10 (label, the union–find array).** With the links of `labeled.label` on an ndarray (the native `array` is the
+`_get_output` buffer of the image's shape, written `output[:] = (array != 0)`), for EVERY content `data` of that buffer, every list
+of neighbour offsets and both border treatments: the filter-iterator table is in bounds (`C11_label_safe`) and every index
+`find` / `join` / `compress` dereference in the label buffer is inside it, no recursion deeper than `N + 1`
+(`C10_label_union_find_in_bounds` needs no guard at all: the invariant is established by the kernel's own initialisation loop). -/
+theorem C11_label_union_find_safe (envW envN : Env) (m : Mode)
+    (hk : (envW "array").kind = 1)
+    (hl : Linked Generated.lookupTables Generated.links_labeled_label__labeled_label envW envN = true)
+    (data : List Int) (offs : List (List Int)) :
+    (envN "array").shape = (envW "array").shape ∧
+    Mahotas.C10Labeled.inRange data.length
+      (Mahotas.C10Labeled.labelUF m (envN "array").shape data offs (data.length + 1)).2.1 = true ∧
+    (Mahotas.C10Labeled.labelUF m (envN "array").shape data offs (data.length + 1)).2.2 = true := by
+  obtain ⟨hs, -, -⟩ := (C11_label_guards_imply_pre envW envN).2 hk hl
+  obtain ⟨h1, h2, -, -⟩ := C10_label_union_find_in_bounds m (envN "array").shape data offs
+  exact ⟨hs, h1, h2⟩
+
 end Round4Labeled
 -- ---------------------------------------------------------------------------------------------------------
 
@@ -977,6 +994,32 @@ end Round4Labeled
 /-! ## Round 4 — Flood: compositions with the C10 theorems about `_morph.cpp` flood/queue kernels (close_holes, regmin_max, locmin_max, distance_multi position_queue, subm, disk_2d, majority_filter) and the `_thin` full pass -/
 section Round4Flood
 -- (theorems of this package go between this line and the `end`)
+
+/-- **C11+C10 (close_holes).** If the guard of the wrapper `morph.close_holes` (as extracted: `ref.ndim != 2` raises) passes on
+a well-formed ndarray, the native kernel runs on a matrix: every position of the border seeding loops is inside it
+(`C10_close_holes_seeding_in_bounds`: the odometer is only correct up to rank 2 — the guard is what keeps the kernel inside
+its domain), and for every neighbourhood, availability map and stack the flood dereferences only positions inside the array
+and drains its stack within `stack + available` pops (`C10_stack_flood_in_bounds`). -/
+theorem C11_close_holes_safe (env : Env) (hk : (env "ref").kind = 1) (wf : (env "ref").wf)
+    (h : passes Generated.guards_morph_close_holes env = true) :
+    (∃ n0 n1 : Nat, (env "ref").shape = [n0, n1] ∧
+      Mahotas.C10Flood.pAllOk (Mahotas.C10Flood.chSeedAccesses (env "ref").shape) = true) ∧
+    ∀ (nb : List (List Int)) (fuel : Nat) (av : Array Bool) (st : List (List Int)),
+      st.length + Mahotas.C10Flood.cntTrue av ≤ fuel →
+        Mahotas.C10Flood.pAllOk (Mahotas.C10Flood.floodRun (env "ref").shape nb fuel av st).1 = true ∧
+        (Mahotas.C10Flood.floodRun (env "ref").shape nb fuel av st).2.1 = true := by
+  have h2 : (env "ref").ndim = 2 := (C11_2d_guards_imply_pre env).2.1 hk h
+  obtain ⟨n0, n1, e⟩ := shape_of_len_two (env "ref").shape (by unfold Desc.wf at wf; omega)
+  refine ⟨⟨n0, n1, e, by rw [e]; exact C10_close_holes_seeding_in_bounds.2.1 n0 n1⟩, ?_⟩
+  intro nb fuel av st hf
+  have := C10_stack_flood_in_bounds (env "ref").shape nb fuel av st hf
+  exact ⟨this.1, this.2.1⟩
+
+/-- non-vacuity: a 4×5 image passes the guard; a 1×3×3 one is rejected — and would indeed be left by the seeding loops -/
+example :
+    passes Generated.guards_morph_close_holes (fun n => if n = "ref" then { kind := 1, ndim := 2, shape := [4, 5] } else {}) = true ∧
+    passes Generated.guards_morph_close_holes (fun n => if n = "ref" then { kind := 1, ndim := 3, shape := [1, 3, 3] } else {}) = false ∧
+    Mahotas.C10Flood.pAllOk (Mahotas.C10Flood.chSeedAccesses [1, 3, 3]) = false := by decide
 
 end Round4Flood
 -- ---------------------------------------------------------------------------------------------------------
@@ -986,6 +1029,67 @@ end Round4Flood
 section Round4Feat
 -- (theorems of this package go between this line and the `end`)
 
+/-- **C11+C10 (otsu).** If the guards of the native `py_otsu` pass, the histogram is a C-contiguous `double` array, read through a
+raw pointer over `n = SIZE(histogram)` cells — and for every `n` and every outcome of the floating-point tests all accesses of
+`hist`, `nB`, `nO` are in bounds and the threshold returned is a bin (`C10_otsu_in_bounds`; no further guard is needed). -/
+theorem C11_otsu_safe (env : Env) (h : npasses Generated.nativeGuards_histogram_otsu env = true) (hk : (env "histogram").kind = 1)
+    (n : Int) (hz : Bool) (nbz noz better : Nat → Bool) :
+    (canonT (env "histogram").tnum = canonT 12 ∧ (env "histogram").isCArray = true) ∧
+    Mahotas.C10Feat.allOk (Mahotas.C10Feat.otsuRun n hz nbz noz better).1 = true := by
+  simp [Generated.nativeGuards_histogram_otsu, npasses, NAtom.rejects, isArr, hk] at h
+  exact ⟨⟨by simpa using h.1, h.2⟩, (C10_otsu_in_bounds n hz nbz noz better).1⟩
+
+/-- **C11+C10 (subm).** If the guards of the native `py_subm` pass on two ndarrays, they have the same shape, so the paired scan
+`*ita … *itb` over `a.size()` elements stays inside both (`C10_pair_scan_in_bounds`). -/
+theorem C11_subm_safe (env : Env) (ha : (env "a").kind = 1) (hb : (env "b").kind = 1)
+    (h : npasses Generated.nativeGuards_morph_subm env = true) :
+    (env "a").shape = (env "b").shape ∧
+    Mahotas.C10Feat.allOk (Mahotas.C10Feat.pairScan (shapeSize (env "a").shape) (shapeSize (env "b").shape) none) = true := by
+  simp [Generated.nativeGuards_morph_subm, npasses, NAtom.rejects, isArr, ha, hb] at h
+  have hs : (env "a").shape = (env "b").shape := h.1
+  exact ⟨hs, (C10_pair_scan_in_bounds _ _).1.mpr (by rw [hs])⟩
+
+/-- **C11+C10 (is_same_labeling) — partial.** The native guards make both arguments C-contiguous `int` arrays but do NOT compare
+their sizes (second conjunct: a 4-element and a 3-element array pass every native guard, and the complete scan would read
+`b[3]`). What keeps the kernel inside the second buffer is the wrapper's `if labeled0.shape != labeled1.shape: return False`, which
+is a `return`, not a raising guard, hence not in the extracted guard list: with equal shapes (hypothesis) every prefix of the scan is
+in bounds. MISSING for a full corollary: extraction of early `return` statements as guards. The `featreal` cases run the public
+function on arrays of different sizes under ASan. -/
+theorem C11_is_same_labeling_safe_partial (env : Env) (h0 : (env "labeled0").kind = 1) (h1 : (env "labeled1").kind = 1)
+    (h : npasses Generated.nativeGuards_labeled_is_same_labeling env = true)
+    (hs : (env "labeled0").shape = (env "labeled1").shape) (stop : Option Nat) :
+    ((env "labeled0").isCArray = true ∧ (env "labeled1").isCArray = true ∧
+      Mahotas.C10Feat.allOk (Mahotas.C10Feat.pairScan (shapeSize (env "labeled0").shape) (shapeSize (env "labeled1").shape) stop) = true) ∧
+    (npasses Generated.nativeGuards_labeled_is_same_labeling (fun n =>
+        if n = "labeled0" then { kind := 1, ndim := 1, shape := [4], tnum := 5, flags := 7 } else
+        if n = "labeled1" then { kind := 1, ndim := 1, shape := [3], tnum := 5, flags := 7 } else {}) = true ∧
+      Mahotas.C10Feat.allOk (Mahotas.C10Feat.pairScan 4 3 none) = false) := by
+  simp [Generated.nativeGuards_labeled_is_same_labeling, npasses, NAtom.rejects, isArr, h0, h1] at h
+  refine ⟨⟨h.2.2.1, h.2.2.2, (C10_pair_scan_in_bounds _ _).2 (by rw [hs]) stop⟩, by decide⟩
+
+/-- **C11+C10 (disk_2d).** If the guards of the native `py_disk_2d` pass on a well-formed ndarray, it is a C-contiguous 2-D bool
+array and `radius ≥ 0`; every store of the kernel is inside it (`C10_disk_2d_in_bounds`, which needs none of this except the
+rank: the C-array guard is what makes the running pointer `iter` address cell `x0*N1 + x1`). -/
+theorem C11_disk_2d_safe (env : Env) (hk : (env "array").kind = 1) (hr : (env "radius").kind = 2) (wf : (env "array").wf)
+    (h : npasses Generated.nativeGuards_morph_disk_2d env = true) :
+    ∃ n0 n1 : Nat, (env "array").shape = [n0, n1] ∧ (env "array").isCArray = true ∧ 0 ≤ (env "radius").ival ∧
+      Mahotas.C10Feat.allOk (Mahotas.C10Feat.diskStores n0 n1 (env "radius").ival) = true := by
+  simp [Generated.nativeGuards_morph_disk_2d, npasses, NAtom.rejects, isArr, isInt, hk, hr] at h
+  obtain ⟨n0, n1, e⟩ := shape_of_len_two (env "array").shape (by unfold Desc.wf at wf; omega)
+  exact ⟨n0, n1, e, h.2.1, by omega, C10_disk_2d_in_bounds n0 n1 _⟩
+
+/-- **C11+C10 (zernike).** For every `degree < 100000` the loops of `zernike_moments` call `_zernike.znl(D, A, P, n, l)` only with
+pairs for which (`C11_zernike_loop_pre`) `0 ≤ l ≤ n`; then, for arrays `A`, `P` with at least as many elements as `D` (the wrapper
+passes three arrays cut by one mask `k`; the links are `other`, so this is a hypothesis), every `fact` recursion comes back and
+reads inside the factorial table, every `g_m[m]`, `D[i]`, `A[i]`, `P[i]` is in bounds (`C10_znl_in_bounds`). -/
+theorem C11_znl_safe (degree : Int) (hd : degree < 100000) (nd na np : Nat) (ha : nd ≤ na) (hp : nd ≤ np) :
+    ∀ nl ∈ znlPairs degree,
+      Mahotas.C10Feat.allOk (Mahotas.C10Feat.znlRun 100000 nl.1 nl.2 nd na np).1 = true ∧
+      (Mahotas.C10Feat.znlRun 100000 nl.1 nl.2 nd na np).2 = true := by
+  intro nl h
+  obtain ⟨hle, hdeg, -, -⟩ := C11_zernike_loop_pre degree nl h
+  exact C10_znl_in_bounds 100000 nl.1 nl.2 nd na np (by omega) (by exact_mod_cast hle) (by push_cast; omega) ha hp
+
 end Round4Feat
 -- ---------------------------------------------------------------------------------------------------------
 
@@ -993,6 +1097,27 @@ end Round4Feat
 /-! ## Round 4 — Conv: compositions with the C10 theorems about `_convolve.cpp` (convolve, rank_filter, mean_filter, template_match, daubechies coefficient tables)  -/
 section Round4Conv
 -- (theorems of this package go between this line and the `end`)
+
+/-- **C11+C10 (rank_filter, median_filter).** `envH` describes the arguments of `convolve._check_rank`, `envN` those of the native
+`_convolve.rank_filter`. If the helper's guards pass and the extracted data flow holds (`Generated.checkFlowTable`: the checked
+`Bc` and `rank` are what the native call receives), then `0 ≤ rank < count_nonzero(Bc) = N2`, and for every border mode and every
+outcome of the `N2` `retrieve` calls of a pixel each `neighbours[n++]`, the `nth_element` range and `neighbours[currank]` are
+valid (`C10_rank_filter_in_bounds`); the early `return` of the kernel for an out-of-range rank (which would leave the `np.empty`
+output unwritten) is unreachable. -/
+theorem C11_rank_filter_safe (envH envN : Env) (hr : (envH "rank").kind = 2) (hb : (envH "Bc").kind = 1)
+    (h : passes Generated.guards_convolve__check_rank envH = true)
+    (hf : Flows [("Bc", "Bc", 0), ("rank", "rank", 0)] envH envN = true)
+    (isConst : Bool) (retr : List Bool) (hlen : retr.length = (envN "Bc").nnz) :
+    (0 ≤ (envN "rank").ival ∧ (envN "rank").ival < ((envN "Bc").nnz : Int)) ∧
+    Mahotas.C10Conv.allOk (Mahotas.C10Conv.rankPixelAccesses ((envN "Bc").nnz : Int) (envN "rank").ival isConst retr) = true ∧
+    (0 < (Mahotas.C10Conv.rankStores isConst retr 0).2 →
+      Mahotas.C10Conv.curRank ((envN "Bc").nnz : Int) (Mahotas.C10Conv.rankStores isConst retr 0).2 (envN "rank").ival <
+        (Mahotas.C10Conv.rankStores isConst retr 0).2) := by
+  have hp : PreRank envN := (C11_rank_guards_imply_pre envH envN hr hb h).2.1 hf
+  unfold PreRank at hp
+  obtain ⟨c1, -, -, -, -, -, c7⟩ :=
+    C10_rank_filter_in_bounds ((envN "Bc").nnz : Int) (envN "rank").ival isConst retr (by exact_mod_cast hlen) hp.1 hp.2
+  exact ⟨hp, c1, c7⟩
 
 end Round4Conv
 -- ---------------------------------------------------------------------------------------------------------
